@@ -456,7 +456,9 @@ static Spec *makeSpec(char *name)
 
     current_spec.name = xstrdup(name);
 
-    /* FIXME: check for manditory scripts here?  what are they? */
+    /* The login script is run unconditionally each time a device connects */
+    if (current_spec.prescripts[PM_LOG_IN] == NULL)
+        _errormsg("specification has no login script");
 
     spec = _copy_current_spec();
     assert(device_specs != NULL);
